@@ -202,6 +202,7 @@ def run_quant_cases(ctx, cases_in):
 # ------------------------------------------------------------------------------------------------
 def gen_seq_spec(rng):
     spec = U.gen_rung_params(rng)
+    spec.update(U.gen_max_t_variant(rng, spec["max_t"]))
     spec.update(kind="sequence", type=rng.choice(["stopping", "stopping", "rush_stopping"]),
                 mode=rng.choice(["min", "max"]), brackets=rng.randint(1, 4),
                 per_bracket=rng.random() < 0.35, seed=rng.randint(0, 10 ** 6))
@@ -228,6 +229,10 @@ def metric_value(rng, style, t, r):
     return rng.uniform(0, 1)
 
 
+class ConstructorRaised(Exception):
+    pass
+
+
 EXC = {"KeyError": "EKeyTrial", "AssertExists": "EAssertExists", "AssertResource": "EAssertResource"}
 
 
@@ -239,12 +244,21 @@ def run_sequence(ctx, spec, events=None):
     from syne_tune.config_space import uniform
 
     U.quiet()
-    sch = HyperbandScheduler({"x": uniform(0, 1)}, **U.hyperband_kwargs(spec))
+    space = {"x": uniform(0, 1)}
+    space.update(spec.get("space_consts", {}))
+    try:
+        sch = HyperbandScheduler(space, **U.hyperband_kwargs(spec))
+    except Exception as e:  # every generated configuration is valid
+        raise ConstructorRaised("%s: %s" % (type(e).__name__, str(e)[:200]))
     levels = list(sch.rung_levels)
     nb = sch.num_brackets
     oh = U.OneHotBrackets(nb)
     sch.bracket_distribution = oh
+    # the reference maximum resource comes from the documented rule, never from scheduler.max_t
     max_t = spec["max_t"]
+    if "max_t_via" in spec:
+        max_t = U.documented_max_t(spec["max_t_arg"], spec["max_resource_attr"], spec["space_consts"])
+        assert max_t == spec["max_t"], "generator: documented max_t differs from the intended one"
     mode = spec["mode"]
     per_bracket = spec.get("per_bracket", False)
     nthr = spec.get("num_threshold_candidates", 0) if spec["type"] == "rush_stopping" else None
@@ -634,12 +648,20 @@ def run(ctx, replay=None):
         try:
             with U.watchdog(120):
                 res = run_sequence(ctx, spec, events)
+        except ConstructorRaised as e:
+            ctx.violation("property", "HyperbandScheduler constructor raised %s for a valid configuration (documented max resource %r, "
+                          "max_t argument %r, max_resource_attr %r, constants %r)" % (e, spec["max_t"], spec.get("max_t_arg"),
+                                                                                     spec.get("max_resource_attr"), spec.get("space_consts")),
+                          case=dict(kind="sequence", spec=spec, events=events),
+                          signature=dict(scheduler="HyperbandScheduler", type=spec["type"], defect="constructor_raises"))
+            continue
         except U.Hang as e:
             ctx.violation("property", "HyperbandScheduler did not answer: %s" % e, case=dict(kind="sequence", spec=spec, events=events),
                           signature=dict(scheduler="HyperbandScheduler", type=spec["type"], defect="hang"))
             continue
         ctx.count(("sequence", spec), nontrivial=res["n_nontrivial"] > 0)
         ctx.h("seq_type", spec["type"])
+        ctx.h("seq_max_t_via", spec.get("max_t_via", "arg"))
         ctx.h("seq_brackets", "%d%s" % (res["num_brackets"], "pb" if spec.get("per_bracket") else ""))
         ctx.h("seq_rf", spec.get("reduction_factor", "incr" if "rung_increment" in spec else "explicit"))
         ctx.h("seq_events", len(res["events"]) // 40 * 40)
